@@ -19,6 +19,13 @@ pub static mut FW_FLIP_AT_LOCK: bool = false;
 pub static mut FW_CELL: usize = 0;
 pub static mut FW_SEQ: usize = 0;
 
+pub static mut WR_CELL: usize = 0; // writer-count cell (mode 104)
+/// consumer-count harness (mode 103): my writes to the stream's consumer count
+pub static mut CC_WRITES: usize = 0;
+pub static mut CC_OLD: usize = 0;
+pub static mut CC_NEW: usize = 0;
+pub static mut CC_KIND: u8 = 0;
+
 pub static mut ENV_Q: usize = 0; // address of the MultiQueue under test
 pub static mut ENV_MPMC: bool = false;
 pub static mut ENV_N: usize = 0;
@@ -61,6 +68,28 @@ impl EnvDispatch for TheEnv {
                         env_protocol::<BCast<Pay>>(ENV_Q as *const MultiQueue<BCast<Pay>, Pay>, kind, addr);
                     }
                 }
+                104 => {
+                    // sender-drop harness: another sender handle is dropped at this very moment
+                    if addr == WR_CELL && ENV_BUDGET > 0 && rt::oracle_bool() {
+                        let c = cell(WR_CELL).peek();
+                        if c >= 2 {
+                            cell(WR_CELL).poke(c - 1);
+                            ENV_BUDGET -= 1;
+                            ENV_TAKEN[2] += 1;
+                        }
+                    }
+                }
+                103 => {
+                    // consumer-count harness: a sibling handle of the stream is dropped at this very moment
+                    if addr == G_CONS_CELL && ENV_BUDGET > 0 && rt::oracle_bool() {
+                        let c = cell(G_CONS_CELL).peek();
+                        if c >= 2 {
+                            cell(G_CONS_CELL).poke(c - 1);
+                            ENV_BUDGET -= 1;
+                            ENV_TAKEN[2] += 1;
+                        }
+                    }
+                }
                 102 => {
                     // FutWait::park harness: the awaited value is published exactly when the list lock is taken
                     if kind == K_LOCK && FW_FLIP_AT_LOCK {
@@ -79,6 +108,12 @@ impl EnvDispatch for TheEnv {
         unsafe {
             if rt::ENV_MODE == ENV_PROTOCOL {
                 guarantee_log(kind, addr, old, new);
+            }
+            if rt::ENV_MODE == 103 && addr == G_CONS_CELL {
+                CC_WRITES += 1;
+                CC_OLD = old;
+                CC_NEW = new;
+                CC_KIND = kind;
             }
         }
     }
